@@ -112,7 +112,7 @@ def want_values(bundle):
     return out
 
 
-def check_bundle(bundle, label):
+def check_bundle(bundle, label, check_parsed=True):
     '''Returns (violation dict or None, nontrivial key).'''
     from bp.encoding import Bundle
     want = want_values(bundle)
@@ -156,6 +156,21 @@ def check_bundle(bundle, label):
         return bad('decode-reencode-differs', '%s -> %s' % (oenc.hex()[:160], again.hex()[:160]), dict(oracle_octets=oenc.hex())), None
     if enc != oenc:
         return bad('encoding-differs-from-independent-encoder', '%s vs %s' % (enc.hex()[:160], oenc.hex()[:160]), dict(oracle_octets=oenc.hex())), None
+    # (4) the parsed form of the extension blocks the implementation knows stands for the octets it was parsed from
+    import cbor2
+    for blk in Bundle(oenc).blocks:
+        tcode = int(blk.getfieldval('type_code'))
+        parsed = blk.payload
+        if not check_parsed or tcode not in (6, 7, 10, 11, 12) or type(parsed).__name__ in ('Raw', 'NoPayload', 'NoneType'):
+            continue
+        try:
+            items = parsed.build()
+            rebuilt = b''.join(cbor2.dumps(i) for i in items) if tcode in (11, 12) else cbor2.dumps(items)
+        except Exception as err:
+            return bad('parsed-block-cannot-be-rebuilt', 'block type %d: %s: %s' % (tcode, type(err).__name__, err), dict(oracle_octets=oenc.hex())), None
+        if rebuilt != bytes(blk.getfieldval('btsd')):
+            return bad('parsed-block-differs-from-its-octets', 'block type %d parsed as %r which encodes as %s, block data %s'
+                       % (tcode, items, rebuilt.hex()[:120], bytes(blk.getfieldval('btsd')).hex()[:120]), dict(oracle_octets=oenc.hex())), None
     key = (len(enc), want['primary']['flags'] & 3, want['primary']['crc_type'], len(want['blocks']),
            tuple(b['crc_type'] for b in want['blocks']))
     return None, key
@@ -254,6 +269,8 @@ def ext_menu():
                                                                    params=[(5, {0: 1, -1: 1})], results=[[(17, b'\x84\x40\xa0\xf6\x41\x00')]]))),
         dict(type=12, flags=1, crc_type=1, data=B.enc_asb(dict(targets=[1, 2], context=3, flags=0, source='ipn:1.0',
                                                                    params=[], results=[[(16, b'\x83\x40\xa0\xf6')], [(16, b'\x83\x40\xa0\xf6')]]))),
+        # a confidentiality block whose target has no security result (the tag stays in the ciphertext): an empty result set
+        dict(type=12, flags=0, crc_type=0, data=B.enc_asb(dict(targets=[1], context=3, flags=0, source='ipn:1.0', params=[], results=[[]]))),
     ]
 
 
@@ -469,7 +486,8 @@ def run_chunk(params, known):
             continue
         count += 1
         label, bundle = item[0], item[1]
-        (viol, key) = check_bundle(bundle, label)
+        # (in the odd-btsd space the data of known block types is deliberately not what the type defines)
+        (viol, key) = check_bundle(bundle, label, check_parsed=params['space'] != 'odd-btsd')
         if viol is None and len(item) > 2:
             msg = check_report_fields(bundle, item[2])
             if msg:
